@@ -22,10 +22,11 @@ const limit = 1 << 20 // what the PROPERTY says (1 MiB), not what the code says
 
 func init() {
 	h.Register(&h.Prop{
-		ID:   "C15",
-		Rule: "cases: rd (explicit short stream × every 2-split / 1-byte / random chunking, EOF at every offset), rdseq (≤50 frames), syn (lengths 1..5, 2^k-1,2^k,2^k+1 ≤ 2^20+1, headers 0 and > limit), wr; non-trivial = stream is delivered in ≥2 chunks or is malformed (truncated / zero / oversize header); distinct = distinct case line",
-		Gen:  gen,
-		Exec: exec,
+		ID:     "C15",
+		Rule:   "cases: rd (explicit short stream × every 2-split / 1-byte / random chunking, EOF at every offset), rdseq (≤50 frames), syn (lengths 1..5, 2^k-1,2^k,2^k+1 ≤ 2^20+1, headers 0 and > limit), wr; non-trivial = stream is delivered in ≥2 chunks or is malformed (truncated / zero / oversize header); distinct = distinct case line",
+		Gen:    gen,
+		Exec:   exec,
+		Shrink: shrinkLine,
 	})
 }
 
@@ -407,4 +408,35 @@ func gen(tier string, rng *h.Rng, emit func(string)) {
 		}
 		emit(fmt.Sprintf("rd %s %s", h.Hex(s), csvOf([]int{1 + rng.Intn(6), 1 + rng.Intn(6)})))
 	}
+}
+
+// shrinkLine proposes simpler variants of an `rd` case: shorter stream, simpler chunking.
+func shrinkLine(line string) []string {
+	w := strings.Fields(line)
+	if w[0] != "rd" {
+		return nil
+	}
+	s, sz := h.UnHex(w[1]), csv(w[2])
+	var out []string
+	if len(sz) > 1 {
+		out = append(out, fmt.Sprintf("rd %s %s", w[1], csvOf(sz[:len(sz)-1])), fmt.Sprintf("rd %s %s", w[1], csvOf(sz[1:])))
+	}
+	if len(s) > 0 {
+		out = append(out, fmt.Sprintf("rd %s %s", h.Hex(s[:len(s)-1]), w[2]))
+	}
+	if len(s) > 5 { // drop one payload byte and decrement the announced length
+		t := append([]byte{}, s[:4]...)
+		if n := binary.BigEndian.Uint32(t); n > 1 {
+			binary.BigEndian.PutUint32(t, n-1)
+			out = append(out, fmt.Sprintf("rd %s %s", h.Hex(append(t, s[5:]...)), w[2]))
+		}
+	}
+	for i, k := range sz {
+		if k > 1 {
+			c := append([]int{}, sz...)
+			c[i] = k - 1
+			out = append(out, fmt.Sprintf("rd %s %s", w[1], csvOf(c)))
+		}
+	}
+	return out
 }
